@@ -1,5 +1,5 @@
 (* C17 - A response fits the transport buffer completely or becomes a one-byte error. *)
-From Ctap Require Import Base Schema Wire Typed Procs Inst Tables ProcTables Finite FramingP ObRespTables ObResponseSide FnShapes Shapes ObShapeResponse.
+From Ctap Require Import Base Schema Wire Typed Procs Inst Tables ProcTables Finite FramingP ObRespTables ObResponseSide FnShapes Shapes ObShapeResponse Deps ObDeps.
 Local Open Scope string_scope.
 Local Open Scope Z_scope.
 
@@ -80,6 +80,10 @@ Proof. exact generated_response_side. Qed.
 Theorem c17_modelled_functions_unchanged_response : shapes_hold fn_shapes shapes_response = true.
 Proof. exact generated_shapes_response. Qed.
 
+(* the third-party crates the model represents by hand are pinned at the versions it was written against *)
+Theorem c17_modelled_dependencies_pinned : deps_hold lock_versions cargo_deps = true.
+Proof. exact generated_deps. Qed.
+
 Eval vm_compute in "ASSUMPTIONS c17_fits_or_7f". Print Assumptions c17_fits_or_7f.
 Eval vm_compute in "ASSUMPTIONS c17_parameterless". Print Assumptions c17_parameterless.
 Eval vm_compute in "ASSUMPTIONS c17_prior_independent". Print Assumptions c17_prior_independent.
@@ -90,3 +94,4 @@ Eval vm_compute in "ASSUMPTIONS c17_serialising_variants". Print Assumptions c17
 Eval vm_compute in "ASSUMPTIONS c17_generated_tables". Print Assumptions c17_generated_tables.
 Eval vm_compute in "ASSUMPTIONS c17_generated_conforms". Print Assumptions c17_generated_conforms.
 Eval vm_compute in "ASSUMPTIONS c17_modelled_functions_unchanged_response". Print Assumptions c17_modelled_functions_unchanged_response.
+Eval vm_compute in "ASSUMPTIONS c17_modelled_dependencies_pinned". Print Assumptions c17_modelled_dependencies_pinned.
